@@ -24,6 +24,10 @@ pub struct Case {
     pub reads: ReadScript,
     pub rt: RtShape,
     pub delays: Vec<(String, String, u32, Option<u32>)>,
+    /// CLI only: the archive path already holds a file of this many bytes (random content); compress runs with
+    /// --force-create. The new archive must still end exactly at the end of its last stored chunk.
+    #[serde(default)]
+    pub overwrite: Option<u32>,
 }
 
 pub fn own_decompress(comp: u32, stored: &[u8]) -> Result<Vec<u8>, String> {
@@ -344,7 +348,12 @@ fn run_case(c: &Case, rec: &mut CaseRec) -> Result<(), String> {
             let dir = worker_dir("C11");
             let hook = if c.delays.is_empty() { None } else { Some(l2::Hook { delay: c.delays.clone(), ..Default::default() }) };
             let r: Result<(), String> = (|| {
-                let (archive, _) = compress_cli(&dir, "a", &source, &c.cfg, c.writer == Writer::CliStdin, &c.metadata, hook.as_ref())?;
+                let existing = c.overwrite.map(|n| {
+                    let mut v = Vec::new();
+                    SplitMix(n as u64).fill(&mut v, n as usize);
+                    v
+                });
+                let (archive, _) = compress_cli_over(&dir, "a", &source, &c.cfg, c.writer == Writer::CliStdin, &c.metadata, hook.as_ref(), existing.as_deref())?;
                 let h = conformance(&archive, &source, &c.cfg, &md, c.writer, rec)?;
                 reader_reports(&Arc::new(archive), &h, &c.cfg, &md)?;
                 info_reports(&dir, "a.cba", &h, &c.cfg, &md)?;
@@ -355,6 +364,7 @@ fn run_case(c: &Case, rec: &mut CaseRec) -> Result<(), String> {
             r?;
             rec.level = Some("L2");
             rec.class_if(!c.delays.is_empty(), "delay_script");
+            rec.class_if(c.overwrite.is_some(), "force_create_over_existing_file");
         }
     }
     Ok(())
@@ -400,8 +410,9 @@ fn case_strategy() -> impl Strategy<Value = Case> {
         read_script_strategy(),
         l1::rt_shape_strategy(),
         delay_strategy(),
+        prop_oneof![3 => Just(None), 1 => (0u32..200).prop_map(Some), 2 => (200u32..40_000).prop_map(Some)],
     )
-        .prop_map(|(source, writer, small, cli, hash_len, comp, buffers, metadata, reads, rt, delays)| {
+        .prop_map(|(source, writer, small, cli, hash_len, comp, buffers, metadata, reads, rt, delays, overwrite)| {
             let chunker = if writer == Writer::Lib { small } else { cli };
             let comp = if writer != Writer::Lib {
                 // keep the CLI part cheap: light levels
@@ -414,7 +425,7 @@ fn case_strategy() -> impl Strategy<Value = Case> {
             } else {
                 comp
             };
-            Case { source, cfg: ArchCfg { chunker, hash_len, comp, buffers }, writer, metadata, reads, rt, delays }
+            Case { source, cfg: ArchCfg { chunker, hash_len, comp, buffers }, writer, metadata, reads, rt, delays, overwrite }
         })
 }
 
